@@ -55,6 +55,22 @@ def targets():
         mk('wgs', ['lat', 'h'], lambda A, v: A.utils.wgs84.WGS().normal_gravity(v.lat, v.h), 'WGS().normal_gravity(lat, h)'),
         mk('welmec', ['lat', 'h'], lambda A, v: A.utils.wgs84.welmec_gravity(v.lat, v.h)),
     ]
+    # the same properties through the WGS subclass (how the README builds other bodies), positional and keyword
+    W = lambda A, v: A.utils.wgs84.WGS(v.a, v.f, v.GM, v.w)
+    WK = lambda A, v: A.utils.wgs84.WGS(a=v.a, f=v.f, GM=v.GM, w=v.w)
+    RK = lambda A, v: A.utils.geodesy.ReferenceEllipsoid(a=v.a, f=v.f, GM=v.GM, w=v.w)
+    echo = lambda e: [e.a, e.f, e.gm, e.w, e.b]
+    ts += [
+        mk('echo', IN, lambda A, v: echo(_ell(A, v)), 'constructor echo a, f, gm, w and b'),
+        mk('echo_kw', IN, lambda A, v: echo(RK(A, v))),
+        mk('wgs_echo', IN, lambda A, v: echo(W(A, v)), 'WGS(a, f, GM, w): constructor echo'),
+        mk('wgs_echo_kw', IN, lambda A, v: echo(WK(A, v))),
+        mk('wgs_ge', IN, lambda A, v: W(A, v).equatorial_normal_gravity),
+        mk('wgs_gp', IN, lambda A, v: WK(A, v).polar_normal_gravity),
+        mk('wgs_g', IN + ['lat', 'h'], lambda A, v: W(A, v).normal_gravity(v.lat, v.h)),
+        mk('wgs_U0_J2', IN, lambda A, v: (lambda e: [e.normal_gravity_potential, e.dynamical_form_factor])(WK(A, v))),
+        mk('ref_U0_J2', IN, lambda A, v: (lambda e: [e.normal_gravity_potential, e.dynamical_form_factor])(_ell(A, v))),
+    ]
     for ep in EPOCHS:
         ts.append(mk(f'intl_{ep}', ['lat'], lambda A, v, ep=ep: A.utils.wgs84.international_gravity(v.lat, epoch=ep)))
     for nm in BODIES:
@@ -90,16 +106,26 @@ def pregen(ctx):
 # ------------------------------------------------------------------------------------------
 # implementation entry points
 # ------------------------------------------------------------------------------------------
-def _E(c):
+ROUTES = ('RE', 'WGS', 'RE-kw', 'WGS-kw')
+
+
+def _build(via, a, f, GM, w):
+    """an ellipsoid through one of the public constructors: ReferenceEllipsoid / WGS, positional / keyword"""
     from ahrs.utils.geodesy import ReferenceEllipsoid
-    return ReferenceEllipsoid(c['a'], c['f'], c['GM'], c['w'])
+    from ahrs.utils.wgs84 import WGS
+    cls = WGS if via.startswith('WGS') else ReferenceEllipsoid
+    return cls(a=a, f=f, GM=GM, w=w) if via.endswith('kw') else cls(a, f, GM, w)
 
 
-def _body_impl(nm):
+def _E(c):
+    return _build(c.get('via', 'RE'), c['a'], c['f'], c['GM'], c['w'])
+
+
+def _body_impl(nm, via='RE'):
     import ahrs.common.constants as C
     from ahrs.utils.geodesy import ReferenceEllipsoid
     a, b = getattr(C, nm + '_EQUATOR_RADIUS'), getattr(C, nm + '_POLAR_RADIUS')
-    return ReferenceEllipsoid(a, (a - b) / a, getattr(C, nm + '_GM'), getattr(C, nm + '_ROTATION'))
+    return _build(via, a, (a - b) / a, getattr(C, nm + '_GM'), getattr(C, nm + '_ROTATION'))
 
 
 def _params(rng, n):
@@ -141,6 +167,14 @@ def correspondence(ctx):
     one('J2', lambda c: (lambda e: [e.dynamical_form_factor, e.second_degree_zonal_harmonic])(_E(c)), **loose)
     one('U0', lambda c: _E(c).normal_gravity_potential)
     one('gmean', lambda c: _E(c).mean_normal_gravity, **loose)
+    echo = lambda e: [e.a, e.f, e.gm, e.w, e.b]
+    zs = ps + [{**ps[3], 'w': 0.0}, {**ps[4], 'f': 0.0}]            # exact zeros through every constructor
+    for name, via in (('echo', 'RE'), ('echo_kw', 'RE-kw'), ('wgs_echo', 'WGS'), ('wgs_echo_kw', 'WGS-kw')):
+        ctx.correspond(f'C16_{name}', zs, lambda c, via=via: echo(_E({**c, 'via': via})))
+    ctx.correspond('C16_wgs_ge', zs, lambda c: _E({**c, 'via': 'WGS'}).equatorial_normal_gravity, **loose)
+    ctx.correspond('C16_wgs_gp', zs, lambda c: _E({**c, 'via': 'WGS-kw'}).polar_normal_gravity, **loose)
+    for name, via in (('wgs_U0_J2', 'WGS-kw'), ('ref_U0_J2', 'RE')):
+        ctx.correspond(f'C16_{name}', zs, lambda c, via=via: (lambda e: [e.normal_gravity_potential, e.dynamical_form_factor])(_E({**c, 'via': via})), **loose)
     lats = [0.0, 90.0, -90.0, 45.0, -45.0, 1e-9, 89.999999]
     gc = []
     for i, p in enumerate(ps):
@@ -148,6 +182,7 @@ def correspondence(ctx):
         h = (0.0, 0.005 * p['a'], 100.0)[i % 3] if i < 9 else float(ctx.rng.uniform(0, 0.005 * p['a']))
         gc.append({**p, 'lat': lat, 'h': h})
     ctx.correspond('C16_g', gc, lambda c: _E(c).normal_gravity(c['lat'], c['h']), **loose)
+    ctx.correspond('C16_wgs_g', gc, lambda c: _E({**c, 'via': 'WGS'}).normal_gravity(c['lat'], c['h']), **loose)
     ctx.correspond('C16_g0', [{k: c[k] for k in IN + ['lat']} for c in gc], lambda c: _E(c).normal_gravity(c['lat']), **loose)
     import ahrs
     lh = [{'lat': c['lat'], 'h': (0.0, 100.0, 8848.0, 31000.0)[i % 4]} for i, c in enumerate(gc)] + [{'lat': 90.5, 'h': 1.0}, {'lat': -91.0, 'h': 0.0}]
@@ -282,7 +317,8 @@ def o_sphere(inp):
     """f = 0: gravity equals the rotating-sphere values GM(1-3m/2)/a^2, GM(1+m)/a^2 and is the limit of f -> 0"""
     from ahrs.utils.geodesy import ReferenceEllipsoid
     a, GM, w = inp['a'], inp['GM'], inp['w']
-    e = ReferenceEllipsoid(a, 0.0, GM, w)
+    via = inp.get('via', 'RE')
+    e = _build(via, a, 0.0, GM, w)
     m = w * w * a ** 3 / GM
     ges, gps = GM * (1 - 1.5 * m) / a ** 2, GM * (1 + m) / a ** 2
     ge, gp = e.equatorial_normal_gravity, e.polar_normal_gravity
@@ -298,7 +334,7 @@ def o_sphere(inp):
         return {'tag': 'sphere/normal_gravity', 'observed': g, 'expected': want}
     # continuity: |ge(f) - ge(0)| <= 1.3 f GM/a^2 and |gp(f) - gp(0)| <= 3 m f GM/a^2 (proved over the reals)
     for f in (1e-6, 1e-5, 1e-4, 1e-3, 1e-2):
-        ef = ReferenceEllipsoid(a, f, GM, w)
+        ef = _build(via, a, f, GM, w)
         slack = m * _qtol(f) + TOL
         if abs(ef.equatorial_normal_gravity - ge) > (1.3 * f + slack) * GM / a ** 2:
             return {'tag': 'sphere/equatorial-discontinuous', 'observed': [f, ef.equatorial_normal_gravity], 'expected': ge}
@@ -315,8 +351,14 @@ def o_sphere(inp):
 def o_body(inp):
     """a shipped body: all of the above on its constants"""
     nm = inp['body']
-    e = _body_impl(nm)
-    p = {'a': e.a, 'f': e.f, 'GM': e.gm, 'w': e.w}
+    via = inp.get('via', 'RE')
+    import ahrs.common.constants as C
+    a_, b_ = getattr(C, nm + '_EQUATOR_RADIUS'), getattr(C, nm + '_POLAR_RADIUS')
+    p = {'a': a_, 'f': (a_ - b_) / a_, 'GM': getattr(C, nm + '_GM'), 'w': getattr(C, nm + '_ROTATION'), 'via': via}   # what is PASSED
+    e = _body_impl(nm, via)
+    r = o_classes({k: p[k] for k in IN})
+    if r is not None:
+        return {**r, 'tag': f"{nm}:{r['tag']}"}
     if e.f == 0:
         r = o_sphere({**p, 'lat': inp.get('lat', 45.0), 'h': inp.get('h', 0.0)})
     else:
@@ -359,6 +401,47 @@ def o_formulas(inp):
     return None
 
 
+PROPS = ('b', 'first_eccentricity_squared', 'second_eccentricity_squared', 'linear_eccentricity', 'aspect_ratio', 'curvature_polar_radius',
+         'arithmetic_mean_radius', 'authalic_sphere_radius', 'equivolumetric_sphere_radius', 'normal_gravity_constant', 'dynamical_form_factor',
+         'second_degree_zonal_harmonic', 'normal_gravity_potential', 'equatorial_normal_gravity', 'polar_normal_gravity', 'mean_normal_gravity')
+
+
+def _same(x, y):
+    return x == y or (isinstance(x, float) and isinstance(y, float) and math.isnan(x) and math.isnan(y))
+
+
+def o_classes(inp):
+    """ReferenceEllipsoid(a,f,GM,w) and WGS(a,f,GM,w), positional and keyword: the object holds exactly the passed parameters
+    (also when f or w is exactly 0), b = a(1-f), and all four routes give bit-identical properties and normal gravity"""
+    from vlib.core import call_outcome
+    a, f, GM, w = inp['a'], inp['f'], inp['GM'], inp['w']
+    zero = 'f=0' if f == 0 else 'w=0' if w == 0 else 'generic'
+    objs = {}
+    for via in ROUTES:
+        e = _build(via, a, f, GM, w)
+        got = [e.a, e.f, e.gm, e.w]
+        if not all(_same(float(x), float(y)) for x, y in zip(got, [a, f, GM, w])):
+            return {'tag': f'{via}/constructor-echo/{zero}', 'observed': got, 'expected': [a, f, GM, w]}
+        if _rel(e.b, a * (1 - f)) > 1e-15:
+            return {'tag': f'{via}/b/{zero}', 'observed': e.b, 'expected': a * (1 - f)}
+        objs[via] = e
+    ref = objs['RE']
+    lats = inp.get('lats', [0.0, 37.0, -90.0])
+    hs = inp.get('hs', [0.0, 0.004 * a])
+    for via in ROUTES[1:]:
+        e = objs[via]
+        for name in PROPS:
+            x, y = call_outcome(getattr, ref, name), call_outcome(getattr, e, name)
+            if x[0] != y[0] or (x[0] == 'val' and not _same(x[1], y[1])) or (x[0] == 'raise' and x[1] != y[1]):
+                return {'tag': f'{via}/{name}-differs-from-ReferenceEllipsoid/{zero}', 'observed': list(y), 'expected': list(x)}
+        for lat in lats:
+            for h in hs:
+                x, y = call_outcome(ref.normal_gravity, lat, h), call_outcome(e.normal_gravity, lat, h)
+                if x[0] != y[0] or (x[0] == 'val' and not _same(x[1], y[1])):
+                    return {'tag': f'{via}/normal_gravity-differs-from-ReferenceEllipsoid/{zero}', 'observed': list(y), 'expected': list(x)}
+    return None
+
+
 def call_raises(f):
     try:
         f()
@@ -372,7 +455,8 @@ def o_types(inp):
     import ahrs
     from ahrs.utils.geodesy import ReferenceEllipsoid
     a, f, GM, w, lat, h = int(inp['a']), inp['f'], int(inp['GM']), inp['w'], int(inp['lat']), int(inp['h'])
-    ef, ei = ReferenceEllipsoid(float(a), f, float(GM), w), ReferenceEllipsoid(a, f, GM, w)
+    via = inp.get('via', 'RE')
+    ef, ei = _build(via, float(a), f, float(GM), w), _build(via, a, f, GM, w)
     for name in ('b', 'first_eccentricity_squared', 'second_eccentricity_squared', 'linear_eccentricity', 'normal_gravity_constant',
                  'equatorial_normal_gravity', 'polar_normal_gravity', 'dynamical_form_factor', 'normal_gravity_potential', 'mean_normal_gravity'):
         x, y = getattr(ef, name), getattr(ei, name)
@@ -395,7 +479,7 @@ def o_types(inp):
     return None
 
 
-ORACLES = {'types': o_types, 'identities': o_identities, 'gravity': o_gravity, 'sphere': o_sphere, 'body': o_body, 'formulas': o_formulas}
+ORACLES = {'types': o_types, 'classes': o_classes, 'identities': o_identities, 'gravity': o_gravity, 'sphere': o_sphere, 'body': o_body, 'formulas': o_formulas}
 
 
 def cm_call(f, inp):
@@ -415,16 +499,28 @@ def search(ctx, scale):
         nt = key if (p['f'] > 0 or p['w'] != 0) else None
         lat = lats[i % len(lats)] if i < 3 * len(lats) else float(ctx.rng.uniform(-90, 90))
         hs = sorted({0.0, 0.005 * p['a'], *[float(x) for x in ctx.rng.uniform(0, 0.005 * p['a'], 3)], 1.0})
+        via = ROUTES[i % 4]
+        inp = {**p, 'lats': [0.0, lat, -90.0], 'hs': [0.0, hs[2]]}
+        ctx.check('classes', inp, cm_call(o_classes, inp), nontrivial_key=key + ('classes',))
         if p['f'] == 0:
-            inp = {'a': p['a'], 'GM': p['GM'], 'w': p['w'], 'lat': lat, 'h': hs[2]}
-            ctx.check('sphere', inp, cm_call(o_sphere, inp), nontrivial_key=key if p['w'] != 0 else None)
+            for v2 in (ROUTES if i < 24 else (via,)):        # exact zero flattening (and w = 0 among them) through every constructor
+                inp = {'a': p['a'], 'GM': p['GM'], 'w': p['w'], 'lat': lat, 'h': hs[2], 'via': v2}
+                ctx.check('sphere', inp, cm_call(o_sphere, inp), nontrivial_key=key + (v2,) if p['w'] != 0 else None)
             continue
-        ctx.check('identities', p, cm_call(o_identities, p), nontrivial_key=nt)
-        inp = {**p, 'lat': lat, 'hs': hs}
-        ctx.check('gravity', inp, cm_call(o_gravity, inp), nontrivial_key=key + (round(lat, 6),))
+        pv = {**p, 'via': via}
+        ctx.check('identities', pv, cm_call(o_identities, pv), nontrivial_key=nt and nt + (via,))
+        inp = {**pv, 'lat': lat, 'hs': hs}
+        ctx.check('gravity', inp, cm_call(o_gravity, inp), nontrivial_key=key + (round(lat, 6), via))
+    # w exactly 0 with f > 0 and with f = 0, through every constructor
+    for j, via in enumerate(ROUTES):
+        base = ps[3 + j]
+        pv = {**base, 'w': 0.0, 'f': base['f'] or 1e-3, 'via': via}
+        ctx.check('identities', pv, cm_call(o_identities, pv), nontrivial_key=('w=0', via))
+        inp = {'a': base['a'], 'GM': base['GM'], 'w': 0.0, 'lat': 30.0, 'h': 100.0, 'via': via}
+        ctx.check('sphere', inp, cm_call(o_sphere, inp), nontrivial_key=('w=0,f=0', via))
     for j, nm in enumerate(BODIES):
-        for lat in (45.0, 0.0, -90.0, float(ctx.rng.uniform(-90, 90))):
-            inp = {'body': nm, 'lat': lat, 'h': (0.0, 1000.0)[j % 2]}
+        for k, lat in enumerate((45.0, 0.0, -90.0, float(ctx.rng.uniform(-90, 90)))):
+            inp = {'body': nm, 'lat': lat, 'h': (0.0, 1000.0)[j % 2], 'via': ROUTES[k]}
             ctx.check('body', inp, cm_call(o_body, inp), nontrivial_key=(nm, round(lat, 6)))
     for i in range(30 * scale):
         lat = lats[i] if i < len(lats) else float(ctx.rng.uniform(-90, 90))
@@ -433,6 +529,7 @@ def search(ctx, scale):
     for i in range(12 * scale):
         p = ps[(5 * i + 3) % len(ps)]
         inp = {'a': float(round(p['a'])), 'f': p['f'] if i % 3 else 1.0 / 298.257223563, 'GM': float(round(p['GM'])), 'w': p['w'],
-               'lat': (0, 90, -90, 45, -45, 30)[i % 6] if i < 12 else int(ctx.rng.integers(-90, 91)), 'h': int(ctx.rng.integers(0, max(2, int(0.005 * p['a']))))}
+               'lat': (0, 90, -90, 45, -45, 30)[i % 6] if i < 12 else int(ctx.rng.integers(-90, 91)), 'h': int(ctx.rng.integers(0, max(2, int(0.005 * p['a'])))),
+               'via': ROUTES[i % 4]}
         ctx.check('types', inp, cm_call(o_types, inp), nontrivial_key=(inp['lat'], inp['h'], round(inp['a'])))
     ctx.samples.append({'kind': 'search', 'oracle': 'identities', 'input': ps[3]})
